@@ -105,6 +105,9 @@ def lean_load(ctx: Ctx, text: str, deps: dict | None = None):
     r = ctx.lean().call(req)
     if not r.get("ok"):
         return None, r.get("err")
+    if r.get("render_roundtrip") is False:
+        ctx.broke("proof-obligation", "ParseRender.parse_render contradicted by evaluation (a well-formed tree does not survive print + parse with the parser's own fuel)", text)
+    ctx.count("trees_roundtripped", r.get("trees_wf", 0))
     if r.get("topo_ref_agrees") is False:
         ctx.broke("correspondence", "staticOrder (edge-list formulation) vs staticOrderRef (graphlib mirror)", text)
     return RefModel(r), None
